@@ -39,7 +39,7 @@ REQUIRED = dict(monitors=['sigma-is-sum-of-components', 'component-is-xsec-times
                           'contribution-list-restored', 'store-contributions-equal-model-contrib'],
                 classes=['live:fault-before-evaluation', 'cia:he-zero', 'cia:trace-zero', 'cia:trace-zero-in-some-layers', 'contrib:CIA', 'contrib:Rayleigh', 'contrib:SimpleClouds', 'contrib:FlatMie', 'contrib:LeeMie',
                          'contrib:HydrogenIon', 'model:emission', 'early-exit-observed', 'species>=2', 'restricted-grid',
-                         'live:starts-at-zero', 'live:interpolation-mode-switched-between-evaluations', 'live:write-from-zero', 'live:write-to-zero', 'live:write-rescale', 'chemistry:makefree+file', 'live:background-without-scattering-data',
+                         'live:starts-at-zero', 'live:interpolation-mode-switched-between-evaluations', 'live:write-a-few-parts-per-billion-away', 'live:write-trace-abundance-below-1e-8', 'live:write-from-zero', 'live:write-to-zero', 'live:write-rescale', 'chemistry:makefree+file', 'live:background-without-scattering-data',
                          'live:contribution-yields-nothing-after-having-yielded', 'rayleigh:species-zero-in-some-layers-only'])
 _rec = {'yields': {}, 'sigma': {}}
 CUT = base.CUT
@@ -484,7 +484,16 @@ def wl_live(ctx, rng):
     yielded_before = {type(c).__name__: bool(_rec['sigma'].get(id(c), (None, []))[1]) for c in contribs}
     for rnd in range(int(rng.integers(1, 4))):
         cur = [g['mix'] for g in spec['gases'] if g['mol'] == victim][0]
-        if cur == 0.0 or rng.random() < (0.4 if noble else 0.7):
+        u = rng.random()
+        if cur > 0.0 and u < 0.15:
+            # a step a sampler takes near convergence: the new value is the old one a few parts in a billion away
+            v = float(cur * (1.0 + float(rng.choice([-1.0, 1.0])) * 10 ** rng.uniform(-9, -6)))
+            ctx.observe('live:write-a-few-parts-per-billion-away')
+        elif u < 0.35:
+            # a trace abundance: old and new value differ by far less than 1e-8 in absolute terms, by much in ratio
+            v = float(10 ** rng.uniform(-12, -8.5))
+            ctx.observe('live:write-trace-abundance-below-1e-8')
+        elif cur == 0.0 or rng.random() < (0.4 if noble else 0.7):
             v = float(10 ** rng.uniform(-7, -1.5))
         else:
             v = 0.0
